@@ -428,6 +428,21 @@ func (e *Eval) findPkg(name string) *ssa.Package {
 	if _, local := e.pkg.Members[name]; local {
 		return nil
 	}
+	// `stat_base` names the imported package whose path ends in stat/base (two packages called `base` are imported
+	// side by side in some files, under an alias the type checker does not keep)
+	if strings.Contains(name, "_") {
+		suffix := "/" + strings.ReplaceAll(name, "_", "/")
+		for _, imp := range e.pkg.Pkg.Imports() {
+			if strings.HasSuffix(imp.Path(), suffix) {
+				return e.x.prog.Package(imp)
+			}
+		}
+		for _, p := range e.x.prog.AllPackages() {
+			if strings.HasSuffix(p.Pkg.Path(), suffix) && isRepoPkg(p.Pkg) {
+				return p
+			}
+		}
+	}
 	for _, imp := range e.pkg.Pkg.Imports() {
 		if imp.Name() == name {
 			return e.x.prog.Package(imp)
@@ -594,6 +609,20 @@ func (e *Eval) call(n *Node) Val {
 							continue
 						}
 					}
+				}
+				if a.Op == "call" && a.Args[0].Op == "ident" && a.Args[0].Name == "mapof" && len(a.Args) == 2 {
+					// frame(mapof(m)): everything but the content of the map object m
+					mv := e.eval(a.Args[1])
+					if mv.Typ != nil {
+						if mt, ok := mv.Typ.Underlying().(*types.Map); ok {
+							dom, val := x.mapKeys(mt)
+							for _, k := range []string{dom, val, "MapLen"} {
+								except[k] = append(except[k], mv.T)
+							}
+							continue
+						}
+					}
+					e.fail("frame(mapof(m)): %s is not a map", a.Args[1])
 				}
 				v := e.eval(a)
 				if v.Addr == nil {
